@@ -177,6 +177,7 @@ type GenOpts struct {
 	OnlyStrIntKV bool     // restrict map keys to string/int32/int64 (the subset generic path lookup can address)
 	KeyKinds     []string // allowed map key kinds (default: every legal kind)
 	Unpacked     bool     // a quarter of the repeated numeric fields are declared [packed = false]
+	JSONNames    bool     // a sixth of the fields carry an explicit json_name (punctuation, non-ASCII, control characters, quotes)
 }
 
 // SupportedKeyKinds is the map-key subset the properties name as supported: map<int*|uint*|string, ...>.
@@ -215,6 +216,9 @@ func genFieldNum(t *rapid.T, used map[int32]bool, big bool) int32 {
 		}
 	}
 }
+
+// what an explicit json_name may hold besides letters: characters JSON must escape (and Go quotes differently), punctuation, non-ASCII
+var jsonNameTails = []string{"", "_x", "-x", ".x", " x", "\"", "\\", "/", "\x7f", "\a", "\v", "\x01", "\n", "\t", "é", "中", "\u2028", "😀", "\U000e0001", "<", "&", "'"}
 
 var nameParts = []string{"a", "b", "id", "foo", "bar", "val", "x1", "data", "item", "key", "msg", "n"}
 
@@ -311,6 +315,13 @@ func GenSchema(t *rapid.T, o GenOpts) Schema {
 					f.KeyKind = []string{"string", "int32", "int64", "string"}[rapid.IntRange(0, 3).Draw(t, "keyKind")]
 				} else {
 					f.KeyKind = MapKeyKinds[rapid.IntRange(0, len(MapKeyKinds)-1).Draw(t, "keyKind")]
+				}
+			}
+			if o.JSONNames && rapid.IntRange(0, 5).Draw(t, "jsonName") == 0 {
+				// unique per message through the running number; never equal to a default (camel-cased) name, which has no digit-led tail after 'j'
+				f.JSON = fmt.Sprintf("j%d", len(m.Fields)) + jsonNameTails[rapid.IntRange(0, len(jsonNameTails)-1).Draw(t, "jsonTail")]
+				if rapid.Bool().Draw(t, "jsonHead") {
+					f.JSON = jsonNameTails[rapid.IntRange(0, len(jsonNameTails)-1).Draw(t, "jsonHeadTail")] + f.JSON
 				}
 			}
 			m.Fields = append(m.Fields, f)
